@@ -37,7 +37,7 @@ def main():
         "hooks": {
             "guard": "verif",
             "enable": "no source hooks: the checker reads /repo's sources (loaded with -tags verif)",
-            "baseline_off_cmd": "cd /repo && GOFLAGS=-mod=mod GOPROXY=off go test -vet=off -count=1 ./...",
+            "baseline_off_cmd": "cd /repo && GOFLAGS=-mod=mod GOPROXY=off GOSUMDB=off go test -json -vet=off -count=1 -timeout 25m ./...",
             "source_commits": [],
             "add_only": True,
         },
